@@ -1,5 +1,35 @@
 """Per-property manifest texts."""
 CHECKS = {
+    "C07": {
+        "text": "Sem.tla's functional model family F (exogenous noise shared across worlds) gives every conjunction of counterfactual atoms its probability (multi-world terms, PTermMulti); CFMachine.tla model-checks the family against the axioms of structural counterfactuals (effectiveness, composition, exclusion, normalisation) and against the ID reference on every 3-node ADMG. id_star is run on a fixed TLC-generated family of events (CFGen.tla: every single atom and a graph-dependent slice of all two-atom conjunctions, <= 2 signed subscripts) and TLC validates the outcome: an expression must equal P(event) on every base assignment under a reading the event permits (CF.tla Readings), Zero only for impossible events, Unidentifiable accepted, anything else rejected.",
+        "ref": "DESIGN.md section 4/C07, 14.4",
+        "note": "The implementation has known unrepaired defects (about a third of the two-atom events): failing inputs are listed by (graph, event) -> semantic signature in known_findings_C07.json; a listed input failing with a different signature or any unlisted input failing is a violation. Family fixed, independent of VERIF_SEED. 3-node graphs only.",
+        "technique": "TLA+ specification of counterfactual semantics (functional SCMs) model-checked by TLC; TLC-generated events; trace validation of implementation outputs by TLC; known findings keyed by input and semantic signature",
+    },
+    "C08": {
+        "text": "As C07 for idc_star: every split of a TLC-generated 2-/3-atom conjunction into (outcomes, conditions); TLC validates value = P(outcomes and conditions)/P(conditions) where the condition is possible, Zero only for impossible joint events, ValueError exactly for impossible conditions, Unidentifiable accepted.",
+        "ref": "DESIGN.md section 4/C08, 14.4",
+        "note": "Known findings by (input, signature) in known_findings_C08.json (IDC* inherits ID*'s and Expression.conditional's defects). Fixed family, 3-node graphs.",
+        "technique": "TLA+ counterfactual semantics + TLC trace validation; known findings keyed by input and semantic signature",
+    },
+    "C09": {
+        "text": "TV.tla builds, for every recorded problem, a multi-domain functional family: domain k = target with fresh mechanisms at the nodes carrying a selection node and at its policy variables, edges into policy variables removed, every other mechanism, latent and noise shared. unconditional_cft / conditional_cft are run (after the library's own validator, whose rejections are accepted) on TLC-generated events over 3-node ADMGs with 1-2 domains; TLC validates that the returned expression over the domains' distributions, read with the returned event (weakest reading: outcome values, subscript values), equals the target (conditional) probability; Zero only for impossible events; 'fail' accepted; any exception after validation rejected; vocabulary restricted to declared domains.",
+        "ref": "DESIGN.md section 4/C09, 14.4",
+        "note": "Policies without parents only; 3-node targets; fixed deterministic family with known findings by (input, signature) in known_findings_C09.json (ctfTR raises after validation on most conditional inputs and strips subscripts from the returned event).",
+        "technique": "TLA+ multi-domain counterfactual semantics; TLC-generated events; trace validation by TLC; known findings keyed by input and semantic signature",
+    },
+    "C18": {
+        "text": "make_counterfactual_graph is run on TLC-generated conjunctions of 1-3 counterfactual atoms over every second (thorough: every) 3-node ADMG; TLC validates in the functional family F that the relabelled event has the same probability as the original on every base assignment, that 'inconsistent' is reported only for events of probability zero, and (MixedGraph.tla on the serialised graph) that the returned graph is acyclic, equals the ancestors of the relabelled event's variables and contains them. CFMachine.tla model-checks the family F itself.",
+        "ref": "DESIGN.md section 4/C18",
+        "note": "3-node graphs, <= 2 signed subscripts per atom, no reflexive subscripts; seeded three-atom events on top of the fixed family.",
+        "technique": "TLA+ counterfactual semantics (functional SCMs) model-checked by TLC; trace validation of implementation outputs by TLC",
+    },
+    "C19": {
+        "text": "CF.tla transcribes Definition 2.1 (ancestors of a counterfactual variable) and the minimisation ||Y_x|| of Correa, Lee & Bareinboim. minimize_counterfactual (well-formed, sub-variable, pointwise the same random variable over all noise configurations of family F), get_ancestors_of_counterfactual (set equality with the definition), simplify (same probability; 'impossible' only for impossible events) and do_counterfactual_factor_factorization (sum-product read with the returned event equals P(query)) are run on TLC-generated variables and events over 3-node ADMGs, including reflexive subscripts, irrelevant subscripts and repeated variables, and validated by TLC.",
+        "ref": "DESIGN.md section 4/C19, 14.4",
+        "note": "get_ancestral_components (Definition 4.2) is not replayed. Known findings by (routine, input, signature) in known_findings_C19.json (simplify on reflexive atoms, subscript values in the factorisation). Fixed family, 3-node graphs.",
+        "technique": "TLA+ transcription of the definitions + counterfactual semantics; trace validation by TLC; known findings keyed by input and semantic signature",
+    },
     "C05": {
         "text": "The multi-domain semantics is part of the specification: ID.tla derives the selection diagram (TransportNodes) and TV.tla builds, for every recorded problem, a family of generic SCMs in which source domain k shares every mechanism with the target except at the transport nodes; PP[pi*] terms are evaluated in the target, PP[pi_k][Z'] terms in domain k under do(Z'). Every estimand identify_target_outcomes returns on TLC-generated problems (graph x query x 0-3 domains (Z_k, W_k)) is validated by TLC against P*(y|do x) on all assignments; without a source domain the outcome class must agree with the ID oracle (TianOK); exceptions and mutation of the caller's graph are rejected.",
         "ref": "DESIGN.md section 4/C05",
